@@ -6,6 +6,8 @@ import (
 	"strings"
 
 	"github.com/yuin/goldmark/ast"
+	"github.com/yuin/goldmark/renderer/html"
+	"github.com/yuin/goldmark/util"
 
 	"verif/internal/core"
 	"verif/internal/strict"
@@ -177,6 +179,7 @@ func c10Case(s *core.Sub, w *c10Worker, word []byte) uint64 {
 		return 0
 	}
 	soft := countSoftBreaks(doc)
+	flagged := c10Flagged(doc, word)
 	hasLT := bytes.IndexByte(word, '<') >= 0
 	for m := 0; m < 8; m++ {
 		cfg := w.cv[m].Cfg.String()
@@ -207,7 +210,9 @@ func c10Case(s *core.Sub, w *c10Worker, word []byte) uint64 {
 			}
 		}
 		if m&4 != 0 { // Unsafe vs same without
-			if !piecesMatch(w.out[m&^4], w.out[m]) {
+			if !flagged && !bytes.Equal(w.out[m&^4], w.out[m]) {
+				s.Violate("unsafe-changes-a-document-without-raw-html-or-dangerous-url:"+lastBlockKind(w.cv[0], word), cfg, word, nil, "the tree holds no raw HTML and no destination that html.IsDangerousURL classifies as dangerous (as written or as written to the output), yet Unsafe changes the output", string(w.out[m&^4]), string(w.out[m]))
+			} else if !piecesMatch(w.out[m&^4], w.out[m]) {
 				s.Violate("unsafe-changes-more-than-raw-html-and-urls:"+lastBlockKind(w.cv[0], word), cfg, word, nil, "Unsafe output differs from the safe output outside placeholder comments / emptied URLs", string(w.out[m&^4]), string(w.out[m]))
 			}
 		}
@@ -216,6 +221,32 @@ func c10Case(s *core.Sub, w *c10Worker, word []byte) uint64 {
 		return core.Hash(w.out[0])
 	}
 	return 0
+}
+
+// c10Flagged: the tree holds raw HTML, or a link / image / autolink destination that goldmark's exported predicate
+// classifies as dangerous, as written in the source or as written to the output (the side condition of the Unsafe clause).
+func c10Flagged(doc ast.Node, src []byte) bool {
+	flagged := false
+	_ = ast.Walk(doc, func(n ast.Node, entering bool) (ast.WalkStatus, error) {
+		if !entering {
+			return ast.WalkContinue, nil
+		}
+		switch x := n.(type) {
+		case *ast.HTMLBlock, *ast.RawHTML:
+			flagged = true
+		case *ast.Link:
+			flagged = flagged || html.IsDangerousURL(x.Destination) || html.IsDangerousURL(util.URLEscape(x.Destination, true))
+		case *ast.Image:
+			flagged = flagged || html.IsDangerousURL(x.Destination) || html.IsDangerousURL(util.URLEscape(x.Destination, true))
+		case *ast.AutoLink:
+			flagged = flagged || html.IsDangerousURL(x.URL(src))
+		}
+		if flagged {
+			return ast.WalkStop, nil
+		}
+		return ast.WalkContinue, nil
+	})
+	return flagged
 }
 
 func runC10(r *core.Run) {
@@ -302,6 +333,32 @@ func runC10(r *core.Run) {
 		s.Done()
 	}
 	runC10Channels(r)
+	// every ordered pair of URL-bearing documents on one set of eight instances: the switches stay orthogonal whatever the
+	// instances have rendered before
+	{
+		docs, _, _ := c06URLDocs()
+		for _, ext := range []string{"core", "all+align=attr"} {
+			s := r.Sub("url-pairs/"+ext, fmt.Sprintf("every ordered pair of %d URL-bearing documents (harmless, every dangerous scheme, allowed and refused data: media types) converted one after the other under the 8 option subsets on top of %s, on instances that are new for each pair: the same three clauses for both documents", len(docs), ext))
+			s.Planned = int64(len(docs) * len(docs))
+			s.Bound = fmt.Sprintf("%d × %d ordered pairs × 8 subsets", len(docs), len(docs))
+			core.ForEachIndex(len(docs), core.Workers(), func(w int) func(int) {
+				return func(i int) {
+					for j := range docs {
+						cw := newC10Worker(ext)
+						c10Case(s, cw, docs[i])
+						c10Case(s, cw, docs[j])
+					}
+					s.Distinct(core.Hash(docs[i]))
+					if i%(len(docs)/4+1) == 0 {
+						s.AddSample([]string{core.Q(docs[i]), core.Q(docs[(i*7+1)%len(docs)])})
+					}
+				}
+			}, r.Expired)
+			s.States.Store(int64(len(docs) * len(docs)))
+			s.Transitions.Store(s.Evals.Load())
+			s.Done()
+		}
+	}
 	nb := newC10Pool("all+attr+autoid+align=attr")
 	nbhdSub(r, "nbhd-spec/all+attr+autoid+align=attr", core.MustCfg("all+attr+autoid+align=attr"), func(s *core.Sub, cv *core.Conv, w []byte) {
 		c10Case(s, nb.get(cv), w)
